@@ -1035,9 +1035,9 @@ class Interp:
                 try:
                     v = self.eval(x, frame)
                 except PyExc as ex:
-                    if ex.cls is not AttributeError:
+                    if ex.cls not in (AttributeError, TypeError):
                         raise
-                    # an attribute of None inside a clause: the operand is undefined here (it is meant to be guarded
+                    # an attribute of None / arithmetic on None inside a clause: the operand is undefined here (it is meant to be guarded
                     # by a sibling operand); an unconstrained truth value keeps the clause sound in both polarities
                     v = SBool(self.path.fresh_bool("undefined_operand"))
                 t = self.truth(v)
